@@ -131,7 +131,9 @@ pub fn eval_constant(egraph: &EGraph, enode: &Expr) -> ConstValue {
         Some(x(*e)?.clone())
     } else if let Some((op, a, b)) = enode.binary_op() {
         let (a, b) = (x(a)?, x(b)?);
-        if a.is_null() || b.is_null() {
+        // (AND and OR of a NULL are decided by the kernel: NULL OR TRUE is TRUE)
+        let three_valued = matches!(enode, And(_) | Or(_));
+        if (a.is_null() || b.is_null()) && !three_valued {
             return Some(DataValue::Null);
         }
         let array_a = ArrayImpl::from(a);
